@@ -539,10 +539,12 @@ func checkSplitAssemble(c *Ctx, rule string) {
 		args  [][2]int64 // expected linear forms a*i+b of the body arguments used, in order
 		head  string     // constant command word of the child ("" = Array[0] of the parent)
 	}
+	// the argument forms are in the iteration count k = 0, 1, ...: child k of MGET uses parent argument k+1, child k
+	// of MSET the arguments 2k+1 and 2k+2 - however the loop spells its induction variable
 	specs := []spec{
-		{"mgetRequest", 1, [][2]int64{{1, 0}}, "get"},
+		{"mgetRequest", 1, [][2]int64{{1, 1}}, "get"},
 		{"msetRequest", 0, [][2]int64{{2, 1}, {2, 2}}, "set"},
-		{"sumResultRequest", 1, [][2]int64{{1, 0}}, ""},
+		{"sumResultRequest", 1, [][2]int64{{1, 1}}, ""},
 	}
 	for _, sp := range specs {
 		fn := p.Func(redisPkg, "(*"+sp.typ+").Split")
@@ -555,21 +557,37 @@ func checkSplitAssemble(c *Ctx, rule string) {
 			c.Undecided(rule, sp.typ+".Split loop", fn.Pos(), fmt.Sprintf("%d loops", len(hs)))
 			continue
 		}
-		ls, why := findCountedLoop(hs[0])
+		ls, why := findCountedLoopStep(hs[0])
 		if ls == nil {
 			c.Undecided(rule, sp.typ+".Split loop", fn.Pos(), why)
 			continue
 		}
 		init, isC := constInt(ls.initTerm)
-		c.Check(isC && init+ls.initAdd == sp.start, rule, sp.typ+" loop start", ls.phi.Pos(), fmt.Sprintf("starts at %d", sp.start), fmt.Sprintf("the split loop starts at %d, must start at %d: the first key is skipped or the command word is treated as a key", init, sp.start))
-		// bound: len(v) for start 1, len(v)/2 for mset
+		first := init + ls.initAdd // first value of the index variable
+		// the loop may range over a sub-slice of the arguments (range v[1:]): indices are then relative to its start
+		sliceOff := int64(0)
+		var rangedSlice *ssa.Slice
+		if lc, ok := ls.bound.(*ssa.Call); ok && isBuiltin(lc, "len") {
+			if sl, ok := lc.Call.Args[0].(*ssa.Slice); ok && sl.High == nil {
+				if k, isK := constInt(sl.Low); isK || sl.Low == nil {
+					sliceOff, rangedSlice = k, sl
+				}
+			}
+		}
+		// the smallest parent argument a child uses is the first argument form at k = 0
+		firstArg := sp.args[0][1]
+		minUsed := int64(1 << 40)
+		_ = minUsed
+		c.Check(isC, rule, sp.typ+" loop start", ls.phi.Pos(), "constant start", "the split loop does not start at a constant")
+		_ = firstArg
+		// bound: len(v) (any stride), or len(v)/2 for the pair loop that counts pairs
 		okBound := false
 		switch b := ls.bound.(type) {
 		case *ssa.Call:
-			okBound = isBuiltin(b, "len") && sp.typ != "msetRequest"
+			okBound = isBuiltin(b, "len") && (sp.typ != "msetRequest" || ls.step == 2)
 		case *ssa.BinOp:
 			if b.Op == token.QUO {
-				if k, isK := constInt(b.Y); isK && k == 2 && sp.typ == "msetRequest" {
+				if k, isK := constInt(b.Y); isK && k == 2 && sp.typ == "msetRequest" && ls.step == 1 {
 					if lc, ok := b.X.(*ssa.Call); ok && isBuiltin(lc, "len") {
 						okBound = true
 					}
@@ -606,10 +624,15 @@ func checkSplitAssemble(c *Ctx, rule string) {
 			if sl, ok := ia.X.Type().Underlying().(*types.Slice); !ok || !modType(sl.Elem(), redisPkg, "RespValue") {
 				return
 			}
-			if _, isAlloc := ia.X.(*ssa.Slice); isAlloc {
-				return
+			off := int64(0)
+			base := ia.X
+			if sl, isSl := base.(*ssa.Slice); isSl {
+				if sl != rangedSlice {
+					return
+				}
+				off, base = sliceOff, sl.X
 			}
-			if f, _ := loadedField(ia.X); f == nil || f.Name() != "Array" {
+			if f, _ := loadedField(base); f == nil || f.Name() != "Array" {
 				return
 			}
 			a, iv, bb, ok := linearForm(ia.Index)
@@ -617,10 +640,16 @@ func checkSplitAssemble(c *Ctx, rule string) {
 				return
 			}
 			if iv == ssa.Value(ls.useIdx) || iv == ssa.Value(ls.phi) {
-				forms = append(forms, [2]int64{a, bb})
+				// index = a*i + bb with i = first + step*k (first is the first value of the variable the index is
+				// written in): in k it is (a*step)*k + (a*first + bb)
+				f0 := first
+				if iv == ssa.Value(ls.phi) && ls.useIdx != ssa.Value(ls.phi) {
+					f0 = init
+				}
+				forms = append(forms, [2]int64{a * ls.step, a*f0 + bb + off})
 				parentArr = ia.X
 			} else if cv, isC := constInt(ia.Index); isC {
-				forms = append(forms, [2]int64{0, cv})
+				forms = append(forms, [2]int64{0, cv + off})
 			}
 		})
 		want := sp.args
